@@ -224,7 +224,7 @@ def cmd_fru_print(ipmi, args):
     fru_id = 0
     print_all = False
     if len(args) > 0:
-        fru_id = int(args[0])
+        fru_id = int(args[0], 0)
     if len(args) > 1 and args[1] == 'all':
         print_all = True
 
@@ -333,7 +333,7 @@ def cmd_hpm_install(ipmi, args):
     if len(args) < 2:
         print('missing argument')
         return
-    ipmi.install_component_from_file(args[0], int(args[1]))
+    ipmi.install_component_from_file(args[0], int(args[1], 0))
 
 
 def cmd_chassis_status(ipmi, args):
@@ -400,14 +400,14 @@ def cmd_picmg_get_portstate_all(ipmi, args):
 def cmd_picmg_get_portstate(ipmi, args):
     if len(args) < 2:
         return
-    channel = int(args[0])
-    interface = int(args[1])
+    channel = int(args[0], 0)
+    interface = int(args[1], 0)
     (p, s) = ipmi.get_port_state(channel, interface)
     print_link_state(p, s)
 
 
 def cmd_picmg_getpower_channel_status(ipmi, args):
-    ret = ipmi.get_power_channel_status(int(args[0]))
+    ret = ipmi.get_power_channel_status(int(args[0], 0))
     pprint.pprint(vars(ret))
 
 
@@ -423,7 +423,8 @@ def cmd_picmg_send_channel_power(ipmi, args):
     if len(args) < 3:
         usage()
         return
-    ipmi.send_channel_power(int(args[0]), int(args[1]), float(args[2]))
+    ipmi.send_channel_power(int(args[0], 0), int(args[1], 0),
+                            float(args[2]))
 
 
 def usage(toplevel=False):
@@ -589,7 +590,7 @@ def main():
         elif o == '-t':
             target_address = int(a, 0)
         elif o == '-b':
-            target_routing = [(0x20, int(a), 0)]
+            target_routing = [(0x20, int(a, 0), 0)]
         elif o == '-r':
             target_routing = a
         elif o == '-H':
